@@ -19,6 +19,8 @@ import (
 const (
 	wspProto   = "WSP/1.1"  // WSP协议版本
 	prefixBody = "\r\n\r\n" // Header和Body分割符
+
+	maxRequestSize = 1 << 20 // 单个 WSP 请求报文的最大长度
 )
 
 // WSP 协议命令
@@ -126,16 +128,40 @@ func DecodeRequest(r io.Reader, logger *xlog.Logger) (*Request, error) {
 	buf := bspool.Get().([]byte)
 	defer bspool.Put(buf)
 
-	n, err := r.Read(buf)
-	if n == 0 && err == nil { // 上一个报文结束，再读一次
-		n, err = r.Read(buf)
+	// 一个报文可能需要多次 Read 才能读完：websocket 传输层每次 Read 最多返回其读缓冲
+	// 大小（4 KiB）的数据，并以 (0, nil) 表示报文结束；普通 Reader 以 io.EOF 结束
+	data := buf[:0]
+	emptyReads := 0
+	for {
+		if len(data) == cap(data) {
+			if cap(data) >= maxRequestSize {
+				return nil, &badStringError{"WSP request too large", ""}
+			}
+			grown := make([]byte, len(data), 2*cap(data))
+			copy(grown, data)
+			data = grown
+		}
+
+		n, err := r.Read(data[len(data):cap(data)])
+		data = data[:len(data)+n]
+		if err == io.EOF && len(data) > 0 {
+			break
+		}
+		if err != nil {
+			return nil, err
+		}
+		if n == 0 {
+			if len(data) > 0 { // 报文结束
+				break
+			}
+			emptyReads++ // 上一个报文结束，再读一次
+			if emptyReads > 1 {
+				break
+			}
+		}
 	}
 
-	if err != nil {
-		return nil, err
-	}
-
-	input := string(buf[:n])
+	input := string(data)
 	logger.Debugf("wsp <<<=== \r\n%s", input)
 
 	return DecodeStringRequest(input)
